@@ -69,8 +69,8 @@ extern void *_mpt_memmap(size_t len, void *base)
 	/* NULL page mapping -> memory penalty for shitty system */
 	if (!(base = mmap(base, len, MPT_MMAP_FLAGS, MPT_MMAP_TYPE, devzero, 0))) {
 		/* get page table size & check range */
-		if (!_mpt_buffer_map_psize
-		    || (_mpt_buffer_map_psize = sysconf(_SC_PAGESIZE)) < 1) {
+		if (_mpt_buffer_map_psize < 1
+		    && (_mpt_buffer_map_psize = sysconf(_SC_PAGESIZE)) < 1) {
 			return 0;
 		}
 		if (len > (size_t) _mpt_buffer_map_psize) {
@@ -174,8 +174,8 @@ extern MPT_STRUCT(buffer) *_mpt_buffer_map(size_t len, int flags)
 	size_t align;
 	
 	/* get page table size & check range */
-	if (!_mpt_buffer_map_psize
-	    || (_mpt_buffer_map_psize = sysconf(_SC_PAGESIZE)) < 1) {
+	if (_mpt_buffer_map_psize < 1
+	    && (_mpt_buffer_map_psize = sysconf(_SC_PAGESIZE)) < 1) {
 		return 0;
 	}
 	if ((SIZE_MAX - sizeof(*b) - _mpt_buffer_map_psize) < len) {
